@@ -16,8 +16,68 @@ pub fn machinery(msg: &str) -> ! {
     std::process::exit(2);
 }
 
+/// A chooser for subjects that may be NON-deterministic (C38 only): a replayed choice that is out
+/// of range is clamped and remembered as a divergence instead of ending the process.
+#[derive(Default)]
+pub struct TolChooser {
+    pub prefix: Vec<usize>,
+    pub trace: Vec<(usize, usize)>,
+    pub diverged: Option<String>,
+}
+
+impl TolChooser {
+    fn choose(&mut self, n: usize) -> usize {
+        let pos = self.trace.len();
+        let c = match self.prefix.get(pos) {
+            Some(&c) if c >= n => {
+                self.diverged.get_or_insert(format!("decision #{pos} now has {n} alternatives, but alternative {c} was recorded for it"));
+                n - 1
+            }
+            Some(&c) => c,
+            None => 0,
+        };
+        self.trace.push((n, c));
+        c
+    }
+}
+
+/// Deviation-bounded DFS like `vf_explore::explore` (all points costly), for possibly
+/// non-deterministic subjects: `run(prefix)` returns the (alternatives, chosen) trace.
+pub fn explore_tolerant(bound: usize, cap: u64, mut run: impl FnMut(&[usize]) -> Vec<(usize, usize)>) -> (u64, bool) {
+    let mut stack: Vec<Vec<usize>> = vec![vec![]];
+    let mut executions = 0;
+    while let Some(prefix) = stack.pop() {
+        if executions >= cap {
+            return (executions, true);
+        }
+        let trace = run(&prefix);
+        executions += 1;
+        let plen = prefix.len().min(trace.len());
+        let mut cost = trace[..plen].iter().filter(|p| p.1 != 0).count();
+        let mut next = vec![];
+        for i in plen..trace.len() {
+            let (n, c) = trace[i];
+            if cost + 1 <= bound {
+                for alt in 1..n {
+                    let mut np: Vec<usize> = trace[..i].iter().map(|q| q.1).collect();
+                    np.push(alt);
+                    next.push(np);
+                }
+            }
+            if c != 0 {
+                cost += 1;
+            }
+        }
+        next.reverse();
+        stack.extend(next);
+    }
+    (executions, false)
+}
+
 pub struct RecDriver {
     pub ch: Chooser,
+    /// when set, choices come from here instead of `ch`
+    pub tol: Option<TolChooser>,
     depth: usize,
     /// true: every decision is a costly deviation point (deviation-bounded exploration);
     /// false: decisions are free (plain exhaustive DFS, same tree).
@@ -26,14 +86,22 @@ pub struct RecDriver {
 
 impl RecDriver {
     pub fn new(ch: Chooser) -> Self {
-        RecDriver { ch, depth: 0, costly: true }
+        RecDriver { ch, tol: None, depth: 0, costly: true }
     }
     pub fn replay(prefix: Vec<usize>) -> Self {
         Self::new(Chooser::replay(prefix))
     }
+    pub fn tolerant(prefix: Vec<usize>) -> Self {
+        let mut d = Self::new(Chooser::replay(vec![]));
+        d.tol = Some(TolChooser { prefix, ..Default::default() });
+        d
+    }
     /// The decision log: (number of alternatives, alternative taken) per decision.
     pub fn log(&self) -> Vec<(usize, usize)> {
-        self.ch.trace.iter().map(|p| (p.n, p.choice)).collect()
+        match &self.tol {
+            Some(t) => t.trace.clone(),
+            None => self.ch.trace.iter().map(|p| (p.n, p.choice)).collect(),
+        }
     }
     fn pick(&mut self, lo: i128, hi: i128) -> Option<i128> {
         if hi < lo {
@@ -43,7 +111,13 @@ impl RecDriver {
         if n > MAX_RANGE {
             machinery(&format!("simulator decision over a range of {n} values cannot be enumerated"));
         }
-        let c = if self.costly { self.ch.choose(n as usize) } else { self.ch.choose_free(n as usize) };
+        let c = if let Some(t) = &mut self.tol {
+            t.choose(n as usize)
+        } else if self.costly {
+            self.ch.choose(n as usize)
+        } else {
+            self.ch.choose_free(n as usize)
+        };
         Some(lo + c as i128)
     }
 }
